@@ -22,7 +22,7 @@ package saga
 //import   "fmt"
 import "math/rand"
 import . "github.com/pbenner/autodiff"
-import   "github.com/pbenner/autodiff/verifhook"
+import "github.com/pbenner/autodiff/verifhook"
 /* -------------------------------------------------------------------------- */
 /* -------------------------------------------------------------------------- */
 type Objective1Sparse func(int, DenseFloat64Vector) (float64, float64, SparseConstFloat64Vector, error)
